@@ -68,6 +68,12 @@ class ValueProfile:
                         "is_max_exclusive": rng.random() < 0.3,
                     }
                 )
+        db2 = None
+        if self.prop == "C05" and world == "W-POSC" and len(basis) >= 2 and rng.random() < 0.35:
+            (t1, us1, _c1), (t2, us2, _c2) = basis[0], basis[1]
+            if len(us2) >= 2:
+                x = us2[-1]  # in the second database this symbol is a unit of t1, not of t2
+                db2 = {"types": [[t1, list(us1) + [x]], [t2, [w for w in us2 if w != x]]], "moved": x, "from": t2, "to": t1}
         dyn_units = []
         if self.use_reg and world == "W-POSC" and rng.random() < 0.6:
             for n in range(rng.choice([1, 1, 2])):
@@ -77,6 +83,7 @@ class ValueProfile:
             "prop": self.prop,
             "tier": tier,
             "dyn_units": dyn_units,
+            "db2": db2,
             "reg_forms": self.reg_forms,
             "world": world,
             "basis": [list(b) for b in basis],
@@ -113,6 +120,19 @@ class ValueProfile:
             db = UnitDatabase()
             UnitDatabase.FillSimple(db)
             UnitDatabase.PushSingleton(db)
+        spec = cfg.get("db2")
+        if spec:
+            # a project database of its own, in which one symbol of the shipped table means
+            # something else (it belongs to another quantity type)
+            from ..ops import OTHER_DB
+
+            other = UnitDatabase()
+            for t, units in spec["types"]:
+                other.AddUnitBase(t, "base " + units[0], units[0])
+                for n, un in enumerate(units[1:]):
+                    other.AddUnit(t, "unit " + un, un, "%%f / %r" % float(n + 2), "%%f * %r" % float(n + 2))
+                other.AddCategory(t, t)
+            OTHER_DB["db"] = other
         db = UnitDatabase.GetSingleton()
         for l in cfg.get("limited", []):
             dv = None
